@@ -15,6 +15,9 @@ A2_LOW_CSV = ['[amount<100]', '[amount<=99.5]', '[amount<100]', '[amount<100]', 
 LOW_AMOUNTS = [0.0, 0.0, 50.0, -20.0]
 AE_FORMS = ['field.kind == "ach"', 'contains(field.kind, "AC")', 'field.kind.lower() == "ach"',
             '"ACH" in field.kind', 'startswith(field.kind, "ach")']
+# the captured column may be called anything the format parser accepts - including the names of the date parts, which are
+# primitives of the language but NOT built-in members of `field`
+FIELD_NAMES = ['kind', 'kind', 'day', 'month', 'year', 'weekday']
 DYN_FORMS = ['{field.proj}', '{ field.proj }', '{extract(field.proj, "(P\\\\w+)")}', '{trim(field.proj)}',
              # case-sensitive pieces inside the expression text (\\S is not \\s, "X" is not "x"): the text is an expression, not a tag
              '{extract(field.proj, "(P\\\\S+)")}', '{regex_replace(field.proj, "\\\\W", "")}', '{split(field.proj + "Zq", "Z", 0)}']
@@ -36,7 +39,11 @@ class Variant:
             self.noise = False
             self.neg_amount = False
             self.low = None
+            self.fname = 'kind'
+            self.interleave = False
         else:
+            self.interleave = rnd.random() < 0.6
+            self.fname = rnd.choice(FIELD_NAMES)
             self.a1 = rnd.randrange(len(A1_FORMS))
             self.a2 = rnd.randrange(len(A2_FORMS))
             self.ae = rnd.randrange(len(AE_FORMS))
@@ -60,7 +67,7 @@ def atom(a, v):
     if a == 'A2':
         return A2_LOW_FORMS[v.low[0]] if v.low else A2_FORMS[v.a2]
     if a == 'AE':
-        return AE_FORMS[v.ae]
+        return AE_FORMS[v.ae].replace('field.kind', 'field.' + v.fname)
     if a == 'A3':
         return 'month == 12'
     raise ValueError(a)
@@ -91,14 +98,18 @@ def expected_merchant(r):
     return MERCH[r['m']] if r['m'] else rule_name(r)
 
 
-def shape_expr(r):
+def shape_expr(r, v=None):
     """C09 universe: an expression with exactly the rule's (pattern count, constraint kinds, literal length) whose
     truth is that of its atom: the padding conjuncts are true of every transaction the concretiser builds."""
     prio, npat, nkinds, long_ = r['shape']
     tok = {'A1': 'ALFA', 'A2': 'BETA'}[r['cond']['a']]
-    parts = ['contains("%s")' % (tok + ' STORE' if long_ else tok)]
-    parts += ['contains("STORE")'] * (npat - 1)
-    parts += ['amount > -5000', 'month >= 1'][:nkinds]
+    pats = ['contains("%s")' % (tok + ' STORE' if long_ else tok)] + ['contains("STORE")'] * (npat - 1)
+    cons = ['amount > -5000', 'month >= 1'][:nkinds]
+    if v is not None and v.interleave and len(pats) >= 2 and cons:
+        # a constraint written BETWEEN two pattern functions counts like one written after them
+        parts = [pats[0], cons[0]] + pats[1:] + cons[1:]
+    else:
+        parts = pats + cons
     return ' and '.join(parts)
 
 
@@ -108,7 +119,7 @@ def rule_text(r, v, priority=None):
     for l in r['lets']:
         props.append('let: %s = %s' % (l['n'], cond(l['c'], v)))
     if 'shape' in r:
-        props.append('match: ' + shape_expr(r))
+        props.append('match: ' + shape_expr(r, v))
         if r['shape'][0] != 50 or v.noise:
             priority = r['shape'][0]
     else:
@@ -166,9 +177,9 @@ def txn(t, v, prefix=False, extra_token=''):
         amount = -amount
     field = {}
     if tv['AE'] == 'T':
-        field['kind'] = 'ACH'
+        field[v.fname] = 'ACH'
     elif tv['AE'] == 'F':
-        field['kind'] = 'wire'
+        field[v.fname] = 'wire'
     if t['dyn'] == 'val':
         field['proj'] = 'Px1'
     elif t['dyn'] == 'empty':
